@@ -24,7 +24,10 @@ flock 9
 if [ -f "$OUT/.done" ]; then touch "$OUT/.done"; echo "$OUT"; exit 0; fi
 rm -rf "$OUT"; mkdir -p "$OUT/obj"
 # prune old builds (keep the 3 most recent; parallel mutant runs raise VERIF_KEEP_BUILDS)
-ls -1dt "$ROOT"/*-* 2>/dev/null | tail -n +"${VERIF_KEEP_BUILDS:-4}" | xargs -r rm -rf
+# (a build is "used" by touching its .done; builds used in the last 3 hours are never pruned, so parallel runs on scratch trees are safe)
+for d in $(ls -1dt "$ROOT"/*-* 2>/dev/null | tail -n +"${VERIF_KEEP_BUILDS:-4}"); do
+  if [ ! -f "$d/.done" ] || [ -n "$(find "$d/.done" -mmin +180 2>/dev/null)" ]; then rm -rf "$d"; fi
+done
 {
   for f in "$REPO"/src/*.cpp "$REPO"/external/clipper/clipper.cpp; do
     o="$OUT/obj/lib_$(basename "${f%.cpp}").o"
